@@ -103,6 +103,13 @@ def build_pool(ctx, n_real, n_synth):
         for ltv in (1, 2, 3, 101, 0):
             damaged.append({'id': 'r:%s-l%d' % (name, ltv), 'hex': O.mk_message(ids, 64, 25, 98, 0, ltv, pattern=True).hex(),
                             'kind': 'register'})
+    # the SAME descriptor list, master tables and local table VERSION from different originating centres (98 has
+    # local tables bundled, 7 / 34 / 0 have none): the choice of local tables depends on the centre too
+    for name, ids in [('xctr-1192', [1001, 1192, 12001]), ('xctr-wmo', [1001, 1002, 12001]), ('xctr-8201', [8201, 12101])]:
+        for ctr in (98, 7, 34, 0):
+            for ltv in (1, 2):
+                damaged.append({'id': 'r:%s-c%d.%d' % (name, ctr, ltv),
+                                'hex': O.mk_message(ids, 64, 13, ctr, 0, ltv, pattern=True).hex(), 'kind': 'register'})
     # synthetic messages: version x local table x template
     synth = []
     versions = sorted(int(os.path.basename(p)) for p in glob.glob(os.path.join(lib.REPO, 'pybufrkit', 'tables', '0', '0_0', '*'))
@@ -157,7 +164,7 @@ def gen_history(rng, item_ids, n_ops, limit, refs):
         pairs = [(a, a[:-1] + 'b') for a in item_ids if a.startswith('r:') and a.endswith('-a') and a[:-1] + 'b' in item_ids]
         fams = {}
         for a in item_ids:
-            if a.startswith('r:xver-') or a.startswith('r:xloc-'):
+            if a.startswith('r:xver-') or a.startswith('r:xloc-') or a.startswith('r:xctr-'):
                 fams.setdefault(a.rsplit('-', 1)[0], []).append(a)
         fams = [v for v in fams.values() if len(v) >= 2]
         if r < 0.10 and fams:
